@@ -136,6 +136,7 @@ def engine_case(c: Campaign, spec: dict[str, Any], mode: str, trust: bool, picks
     pi = 0
     steps = 0
     aged = [0]
+    fault_done: set[str] = set()
 
     def processed(row_id: int) -> bool:
         return w.scalar("SELECT 1 FROM processed_messages WHERE message_id = ?", (str(row_id),)) is not None
@@ -223,12 +224,27 @@ def engine_case(c: Campaign, spec: dict[str, Any], mode: str, trust: bool, picks
             # a day passes for the in-memory filter: the processor's own rotation (age > 24 h) fires INSIDE the handling of this message
             get_deduplicator()._creation_time -= 90000.0
             aged[0] += 1
+        faulted = False
+        if mode == "fault" and str(row["id"]) not in fault_done and picks and picks[(pi + steps) % len(picks)] % 2 == 0:
+            # the handler commits (effects + processed record) and then fails: the processor reschedules the message, and the
+            # redelivery must find the record
+            w.fault_after.add(str(row["id"]))
+            fault_done.add(str(row["id"]))
+            faulted = True
+        calls_before = sum(1 for mid, _t in w.handler_calls if mid == str(row["id"]))
+        had_record = processed(row["id"])
         try:
             w.processor._handle_message(m)
         except Exception as e:  # noqa: BLE001
             run.handler_errors.append(f"{row['type']}: {type(e).__name__}: {e}")
             w.queue.reschedule(m, w.processor.config.retry_delay)
+            if faulted:
+                c.count("post-commit-faults-injected")
             continue
+        if had_record and str(row["id"]) in fault_done and sum(1 for mid, _t in w.handler_calls if mid == str(row["id"])) > calls_before:
+            checked += 1
+            c.violation(f"handler-ran-again|{mode}|trust={'on' if trust else 'off'}", case,
+                        f"{row['type']} (message {row['id']}) committed its effects and processed record, its handler then failed; on redelivery the handler ran again")
         handled.append(row)  # ack withheld
         # redeliver some earlier messages now
         k = picks[pi % len(picks)] if picks else 0
@@ -245,6 +261,12 @@ def engine_case(c: Campaign, spec: dict[str, Any], mode: str, trust: bool, picks
     from vlib import oracles
 
     for clause, detail in oracles.compare_outcome(spec, ref, got):
+        if mode == "fault" and clause == "extra-execution":
+            # a handler whose commit does not carry the processed record (a poll / transient retry re-queue) is handled again after
+            # the injected failure, which is at-least-once delivery at work and outside this property (it speaks of effects
+            # committed together with the record); the per-message clause above judges the messages that did have a record
+            c.count("fault:re-execution-of-a-step-without-record")
+            continue
         c.violation(f"outcome-changed:{clause}|{mode}|trust={'on' if trust else 'off'}", case, detail)
     over = (w.scalar("SELECT COUNT(*) FROM processed_messages") or 0) > cap
     c.case(("c09", spec, mode, trust, picks, cap), checked > 0 and mode != "same",
@@ -264,7 +286,7 @@ def shard_engine(prop: str, tier: str, seed: int, n: int) -> dict[str, Any]:
     @hseed(seed)
     @settings(max_examples=n, database=None, deadline=None, derandomize=False, suppress_health_check=list(HealthCheck),
               phases=[Phase.generate], report_multiple_bugs=False)
-    @given(spec_st, st.sampled_from(["same", "rotate", "rehydrate", "restart", "peer", "age", "retention"]), st.booleans(), st.lists(st.integers(0, 40), min_size=1, max_size=12),
+    @given(spec_st, st.sampled_from(["same", "rotate", "rehydrate", "restart", "peer", "age", "retention", "fault"]), st.booleans(), st.lists(st.integers(0, 40), min_size=1, max_size=12),
            st.one_of(st.just(2000), st.integers(1, 40)))
     def t(spec, mode, trust, picks, cap):
         if mode == "peer" and trust:
@@ -281,7 +303,7 @@ def shard_grid(prop: str, tier: str, seed: int, name: str) -> dict[str, Any]:
     """Every handled message redelivered right after every later step, all four modes, both option values."""
     c = Campaign(prop, tier, seed, LEVEL)
     spec = core_corpus()[name]
-    for mode in ("same", "rotate", "rehydrate", "restart", "peer", "age", "retention"):
+    for mode in ("same", "rotate", "rehydrate", "restart", "peer", "age", "retention", "fault"):
         for trust in (False, True):
             if mode == "peer" and trust:
                 continue
@@ -313,7 +335,7 @@ def run(c: Campaign, jobs: int) -> None:
         "peer worker + dedup_trust_negative_cache=True is excluded: the option's documentation requires a single writer of processed_messages",
         "SQLite backend only",
     ]
-    for cls in ("mode:rotate", "mode:restart", "mode:peer", "mode:retention", "trust:on", "trust:off", "bloom-machine"):
+    for cls in ("mode:rotate", "mode:restart", "mode:peer", "mode:retention", "mode:fault", "trust:on", "trust:off", "bloom-machine"):
         if c.classes.get(cls, 0) == 0:
             c.harness_error(f"generator starvation: class {cls} never produced")
 
